@@ -2,6 +2,7 @@
 //! bounded-exhaustive inputs against reference models (see /verif/DESIGN.md §2.2).
 mod c01g;
 mod c02;
+mod c02sh;
 mod c04w;
 mod c12;
 mod c13;
@@ -33,6 +34,7 @@ fn main() {
         "c01_growth" => c01g::run(&args),
         "c02_map" => c02::run(&args, "C02"),
         "c13_history" => c02::run(&args, "C13"),
+        "c02_shards" => c02sh::run(&args),
         "c12_watcher" => c12::run(&args),
         "c04_wrappers" => c04w::run(&args),
         "c13_types" => c13::run(&args),
